@@ -6,11 +6,18 @@ spec/Restraints.tla : Sel (which residues a directive selects), WindowP / Window
 S->I : every window case (chain length, ref/target in both orders, d, tol, step) is written as a real build file, parsed by the real
        build-file parser and turned into node windows by the real set_restraints; every ring 3..9 goes through _initialize_cylces;
        results must equal the specification's numbers / pair.
+       Round 7: SelNodesP / TagLoopI - a resname + id-range directive on residues listed in ANY order of their ids (deviations "slice" and
+       "index" refuted); every case goes through the real parser as geometric restraint and as growth direction.  Dist2P / Dist2I - a
+       window applied under the minimum image in boxes with unequal edges (deviations "noimage", "halfshortest" refuted); every probe
+       displacement is handed to the real RandomWalk.checks_milestones on a real engine in that box.
 I->S : real gen_coords runs with random build files (sphere / cylinder / rectangle in and out, growth direction, distance
        restraints, rings declared cyclic, persistence length); for every accepted placement the recorder logs which build-file
        entries the code attached to the residue (WalkTrace requires exactly Sel's selection) and an independent monitor evaluates the
        geometric predicates from the build-file numbers; at the end the restrained pair distances (minimum image) and the sampled
-       end-to-end distances are checked; WalkTrace requires all booleans.
+       end-to-end distances are checked; WalkTrace requires all booleans.  Round 7: the mixture holds a comb whose residue ids do not
+       ascend along the node list (entries select its residues by name + id range); every placement of a residue that carries distance
+       windows is judged by the monitor's own per-axis minimum image (win_ok); runs in boxes with unequal edges whose restraint is longer
+       than half of the shortest edge.
 """
 import json
 import random
@@ -161,10 +168,95 @@ def _ring_case(cs):
     return ("ok", None)
 
 
+def _sel_case(cs):
+    """residues listed in the given order of ids; every directive written twice (as a sphere = `restraints`, as a growth direction =
+    `rw_options`), parsed by the real parser; per node the directives attached, in build-file order, must be the specification's"""
+    from polyply.src.topology import Topology
+    from polyply.src.build_file_parser import read_build_file
+    res, dirs = cs["res"], cs["dirs"]
+    lines = ["[ defaults ]", "1 2 no 1.0 1.0", "[ atomtypes ]", "P 72.0 0.0 A %.3f 4.0" % SIG, "[ moleculetype ]", "M 1", "[ atoms ]"]
+    lines += ["%d P %d %s B1 %d 0.0 72" % (i, r["resid"], r["rn"], i) for i, r in enumerate(res, 1)]
+    lines += ["[ bonds ]"] + ["%d %d 1 %.3f 100" % (i, i + 1, SIG) for i in range(1, len(res))]
+    lines += ["[ system ]", "s", "[ molecules ]", "M 1"]
+    bld = ["[ molecule ]", "M 0 1", "[ sphere ]"]
+    bld += ["%s %d %d in 5.000 5.000 5.000 %.3f" % (d["rn"], d["rlo"], d["rhi"], 1.0 + 0.001 * k) for k, d in enumerate(dirs, 1)]
+    bld += ["[ rw_restriction ]"] + ["%s %d %d 0.0 0.0 1.0 %.1f" % (d["rn"], d["rlo"], d["rhi"], 10.0 + k) for k, d in enumerate(dirs, 1)]
+    with tempfile.TemporaryDirectory(prefix="verif_c07_", dir="/var/tmp") as wd:
+        top = Path(wd) / "c.top"
+        top.write_text("\n".join(lines) + "\n")
+        try:
+            topology = Topology.from_gmx_topfile(name="c", path=top)
+            topology.preprocess()
+            mol = topology.molecules[0]
+            listed = [(int(mol.nodes[n]["resid"]), mol.nodes[n]["resname"]) for n in sorted(mol.nodes)]
+            if listed != [(r["resid"], r["rn"]) for r in res]:
+                return ("machinery", "residues come out as %s, written as %s" % (listed, res))
+            read_build_file(bld, topology)
+        except Exception as exc:
+            return ("diff", "exception %s: %s" % (type(exc).__name__, exc))
+        for node in sorted(mol.nodes):
+            exp = [k for k, t in enumerate(cs["tags"], 1) if node + 1 in t]
+            got_geo = [int(round((float(r[2]) - 1.0) * 1000)) for r in mol.nodes[node].get("restraints", [])]
+            got_rw = [int(round(float(r[1]) - 10.0)) for r in mol.nodes[node].get("rw_options", [])]
+            for what, got in (("geometric restraints", got_geo), ("growth-direction restrictions", got_rw)):
+                if got != exp:
+                    def show(ks):
+                        return ["%s %d %d" % (dirs[k - 1]["rn"], dirs[k - 1]["rlo"], dirs[k - 1]["rhi"]) for k in ks]
+                    miss, extra = [k for k in exp if k not in got], [k for k in got if k not in exp]
+                    return ("diff", "residues listed as %s: residue %s %d (node %d) carries the %s of %d directives, the specification selects it by %d; "
+                            "missing %s, unexpected %s%s" % ([(r["rn"], r["resid"]) for r in res], res[node]["rn"], res[node]["resid"], node, what, len(got), len(exp),
+                                                              show(miss)[:6], show(extra)[:6], "" if miss or extra else " (order or multiplicity differs)"))
+    return ("ok", None)
+
+
+def _apply_case(cs):
+    """one restraint (0, 1, d, tol) through the real parser and set_restraints in a box with the given edges; the reference residue is put
+    at `ref`, every probe displacement (wrapped into the box) is handed to RandomWalk.checks_milestones"""
+    from polyply.src.topology import Topology
+    from polyply.src.nonbond_engine import NonBondEngine
+    from polyply.src.build_file_parser import read_build_file
+    from polyply.src.restraints import set_restraints
+    from polyply.src.random_walk import RandomWalk
+    a = cs["a"]
+    box = np.array([x / 1000.0 for x in a["box"]])
+    ref = np.array([x / 1000.0 for x in a["ref"]])
+    with tempfile.TemporaryDirectory(prefix="verif_c07_", dir="/var/tmp") as wd:
+        top = Path(wd) / "c.top"
+        top.write_text(chain_top(2))
+        try:
+            topology = Topology.from_gmx_topfile(name="c", path=top)
+            topology.preprocess()
+            topology.volumes = {"RA": a["w"]["avg"] / 1000.0}
+            read_build_file(("[ molecule ]\nM 0 1\n[ distance_restraints ]\n0 1 %.3f %.3f\n" % (a["w"]["d"] / 1000.0, a["w"]["tol"] / 1000.0)).splitlines(), topology)
+            nb = NonBondEngine.from_topology(topology.molecules, topology, box.copy())
+            set_restraints(topology, nb)
+            mol = topology.molecules[0]
+            win = [(int(r), float(u), float(lo)) for r, u, lo in mol.nodes[1].get("distance_restraints", [])]
+            if len(win) != 1 or win[0][0] != 0 or abs(win[0][1] - cs["up"] / 1000.0) > 1e-9 or abs(win[0][2] - cs["lo"] / 1000.0) > 1e-9:
+                return ("diff", "restrained residue carries %s, specification [(0, %.3f, %.3f)]" % (win, cs["up"] / 1000.0, cs["lo"] / 1000.0))
+            nb.add_positions(ref.copy(), 0, 0, start=True)
+            rw = RandomWalk(0, nb, maxdim=box.copy())
+            rw.molecule = mol
+            for pr in cs["probes"]:
+                cand = np.mod(ref + np.array(pr["dv"]) / 1000.0, box)
+                res = bool(rw.checks_milestones(1, cand))
+                if res != bool(pr["acc"]):
+                    return ("diff", "box %s, window [%.3f, %.3f] around a residue at %s: candidate at %s (displacement %s, minimum-image distance %.4f) %s" % (
+                        box.tolist(), cs["lo"] / 1000.0, cs["up"] / 1000.0, ref.tolist(), np.round(cand, 4).tolist(), [x / 1000.0 for x in pr["dv"]],
+                        (pr["m2"] ** 0.5) / 1000.0, "accepted" if res else "rejected"))
+        except Exception as exc:
+            return ("diff", "exception %s: %s" % (type(exc).__name__, exc))
+    return ("ok", None)
+
+
 def _s2i(cs):
     try:
         if cs["kind"] in ("window", "window2"):
             return _window_case(cs)
+        if cs["kind"] == "sel":
+            return _sel_case(cs)
+        if cs["kind"] == "apply":
+            return _apply_case(cs)
         return _ring_case(cs) if cs["kind"] == "ring" else _ring2_case(cs)
     except Exception as exc:
         return ("machinery", "%s: %s" % (type(exc).__name__, exc))
@@ -200,6 +292,12 @@ RH 1
 %s
 [ bonds ]
 %s
+[ moleculetype ]
+CB 1
+[ atoms ]
+%s
+[ bonds ]
+%s
 [ system ]
 mix
 [ molecules ]
@@ -208,10 +306,15 @@ PL %d
 RG %d
 CH 1
 RH 1
+CB 1
 """
 
+# CB: a comb - backbone residues RA 1..5, each followed directly by its side-chain residue RB 6..10, so the residue ids along the node
+# list are 1 6 2 7 3 8 4 9 5 10 (legal for GROMACS, unique ids, NOT ascending)
+CB_ORDER = [1, 6, 2, 7, 3, 8, 4, 9, 5, 10]
 
-def mix_top(nch, npl, nrg, ring):
+
+def mix_top(nch, npl, nrg, ring, chlen=8):
     def atoms(n, names):
         return "\n".join("%d P %d %s B1 %d 0.0 72" % (i, i, names[(i - 1) % len(names)], i) for i in range(1, n + 1))
 
@@ -224,8 +327,33 @@ def mix_top(nch, npl, nrg, ring):
     # PL: chain of 10 with a one-residue side branch (residue 11) on residue 4, listed BEFORE the backbone bond 4-5 so that a
     # depth-first build order visits the branch between residues 4 and 5
     pl_bonds = "\n".join(["%d %d 1 0.47 100" % (i, i + 1) for i in range(1, 4)] + ["4 11 1 0.47 100"] + ["%d %d 1 0.47 100" % (i, i + 1) for i in range(4, 10)])
-    return MIX_TOP % (atoms(8, ["RA", "RB"]), bonds(8), atoms(11, ["RA"]), pl_bonds, atoms(ring, ["RC"]), bonds(ring, True),
-                      atoms(ring2, ["RC"]), bonds(ring2, True), nch, npl, nrg)
+    at = {r: i for i, r in enumerate(CB_ORDER, 1)}
+    cb_atoms = "\n".join("%d P %d %s B1 %d 0.0 72" % (i, r, "RA" if r <= 5 else "RB", i) for i, r in enumerate(CB_ORDER, 1))
+    cb_bonds = "\n".join(["%d %d 1 0.47 100" % (at[r], at[r + 1]) for r in range(1, 5)] + ["%d %d 1 0.47 100" % (at[r], at[r + 5]) for r in range(1, 6)])
+    return MIX_TOP % (atoms(chlen, ["RA", "RB"]), bonds(chlen), atoms(11, ["RA"]), pl_bonds, atoms(ring, ["RC"]), bonds(ring, True),
+                      atoms(ring2, ["RC"]), bonds(ring2, True), cb_atoms, cb_bonds, nch, npl, nrg)
+
+
+def comb_bld(rng, box, cbi):
+    """entries for the comb molecule (index cbi), all selecting by residue name + id range: the whole backbone in a slab, side chains
+    outside a small sphere, one entry with a random name / range, and a growth direction for a range of side chains"""
+    c0 = [box / 2.0] * 3
+    ents = [{"id": 901, "kind": "rectangle", "inout": "in", "rn": "RA", "rlo": 1, "rhi": 6, "point": c0, "par": [3.301, 3.3, round(rng.uniform(1.3, 1.8), 2)]}]
+    rlo = rng.randint(5, 8)
+    ents.append({"id": 902, "kind": "sphere", "inout": "out", "rn": "RB", "rlo": rlo, "rhi": rlo + rng.randint(1, 5), "point": c0, "par": [round(round(rng.uniform(0.6, 1.0), 2) + 0.002, 3)]})
+    rlo = rng.randint(1, 9)
+    kind = rng.choice(["sphere", "cylinder"])
+    ents.append({"id": 903, "kind": kind, "inout": "in", "rn": rng.choice(["RA", "RB"]), "rlo": rlo, "rhi": rlo + rng.randint(0, 4), "point": c0,
+                 "par": [3.403] if kind == "sphere" else [3.403, 3.2]})
+    txt = ["[ molecule ]\nCB %d %d" % (cbi, cbi + 1)]
+    for e in ents:
+        e.update(mname="CB", mlo=cbi, mhi=cbi + 1)
+        txt.append("[ %s ]\n%s %d %d %s %.3f %.3f %.3f %s" % (e["kind"], e["rn"], e["rlo"], e["rhi"], e["inout"], c0[0], c0[1], c0[2], " ".join("%.3f" % x for x in e["par"])))
+    rlo = rng.randint(6, 8)
+    rwc = {"id": 904, "kind": "rw", "mname": "CB", "mlo": cbi, "mhi": cbi + 1, "rn": "RB", "rlo": rlo, "rhi": rlo + rng.randint(1, 4),
+           "normal": rng.choice([[0.0, 0.0, 1.0], [0.0, 2.0, 0.0], [1.0, 0.0, 1.0]]), "angle": rng.choice([85.0, 65.0])}
+    txt.append("[ rw_restriction ]\n%s %d %d %.1f %.1f %.1f %.1f" % (rwc["rn"], rwc["rlo"], rwc["rhi"], rwc["normal"][0], rwc["normal"][1], rwc["normal"][2], rwc["angle"]))
+    return ents, txt, rwc
 
 
 def random_bld(rng, box, nch):
@@ -297,22 +425,41 @@ def _alarm(signum, frame):
 
 def _e2e(arg):
     sd, ring = arg[0], arg[1]
-    small_box = len(arg) > 2 and arg[2]
+    mode = arg[2] if len(arg) > 2 else False
+    small_box = mode is True
+    rect = mode == "rect"       # a box with unequal edges and a distance restraint longer than half of its shortest edge
     from polyply import gen_coords
     from polyply.src import persistence as pers
     rng = random.Random(sd)
     box, nch, npl, nrg = (5.0 if small_box else 8.0), 3, 2, 2
     ents, txt, rw, dist = random_bld(rng, box, nch)
-    if small_box:   # periodic-boundary scenario: only pair restraints, molecules frequently cross the box boundary
+    if small_box or rect:   # periodic-boundary scenarios: only pair restraints, molecules frequently cross the box boundary
         ents, txt, rw = [], [], None
+    rng2 = random.Random(sd * 7919 + 13)     # (draws added later come from a stream of their own)
+    cbi = nch + npl + nrg + 2                # index of the comb molecule
+    boxv, chlen, rwc = [box] * 3, 8, None
+    if rect:
+        boxv = list(rng2.choice([(7.0, 7.0, 3.0), (3.0, 7.0, 7.0), (7.0, 3.2, 6.0), (3.4, 6.0, 7.0)]))
+        chlen = 14
+        # d - tol exceeds half of the shortest edge, the window reaches beyond half of a longer one
+        dist = {"mname": "CH", "mlo": 0, "mhi": nch, "ref": rng2.choice([0, 1]), "target": rng2.choice([12, 13]), "d": round(rng2.uniform(3.6, 4.2), 2), "tol": round(rng2.uniform(0.15, 0.3), 2)}
+        if rng2.random() < 0.5:
+            dist["ref"], dist["target"] = dist["target"], dist["ref"]
+    elif not small_box:
+        cents, ctxt, rwc = comb_bld(rng2, box, cbi)
+        ents, txt = ents + cents, txt + ["\n".join(ctxt)]
+    rws = [x for x in (rw, rwc) if x]
     cyc_tol = round(max(rng.uniform(0.1, 0.3), 0.035 * ring), 2)      # larger rings need a tolerance that a random walk can meet in reasonable time
     lp = round(rng.uniform(0.6, 1.0 if small_box else 2.0), 2)
-    mname_of = ["CH"] * nch + ["PL"] * npl + ["RG"] * nrg + ["CH", "RH"]
+    mname_of = ["CH"] * nch + ["PL"] * npl + ["RG"] * nrg + ["CH", "RH", "CB"]
     ring2 = ring + 2 if ring < 10 else ring - 3
     # a second distance restraint that shares its anchor with the first one (shorter path listed first or second)
     anchor = dist["ref"] if dist["ref"] < dist["target"] else dist["target"]
     far = dist["target"] if dist["ref"] < dist["target"] else dist["ref"]
     dist2 = {"ref": anchor, "target": rng.choice([t for t in (3, 4, 5, 6, 7) if t != far]), "d": round(rng.uniform(0.6, 1.2), 2), "tol": round(rng.uniform(0.15, 0.3), 2)}
+    if rect:    # the second restraint sits where the first one lets the chain pass (its own windows start at d * i / len - tol)
+        t2 = rng2.choice([t for t in (4, 6, 8, 9) if t != far])
+        dist2 = {"ref": anchor, "target": t2, "d": round(dist["d"] * (t2 - anchor) / (far - anchor) + rng2.uniform(0.0, 0.3), 2), "tol": round(rng2.uniform(0.15, 0.3), 2)}
     dist_lines = ["%d %d %.2f %.2f" % (dist["ref"], dist["target"], dist["d"], dist["tol"]), "%d %d %.2f %.2f" % (dist2["ref"], dist2["target"], dist2["d"], dist2["tol"])]
     if rng.random() < 0.5:
         dist_lines.reverse()
@@ -324,7 +471,7 @@ def _e2e(arg):
     # two is then not a prefix of the build order, and the side branch on residue 4 lies between them for some choices)
     pl_start, pl_stop = rng.choice([(0, 9), (9, 0), (2, 8), (7, 1), (5, 0), (4, 9), (3, 6), (1, 10)])
     text.append("[ molecule ]\nPL %d %d\n[ persistence_length ]\nWCM %.2f %d %d" % (nch, nch + npl, lp, pl_start, pl_stop))
-    if not small_box:
+    if not small_box and not rect:
         # a geometric restraint that selects exactly the START residue of the persistence entry (the residue the walk begins with, which
         # need not be the first residue of the molecule): the start point itself has to satisfy it
         anchor = {"id": 900, "kind": "sphere", "inout": "in", "mname": "PL", "mlo": nch, "mhi": nch + npl, "rn": "RA", "rlo": pl_start + 1, "rhi": pl_start + 2,
@@ -385,15 +532,36 @@ def _e2e(arg):
                 rids.append(cand[0]["id"])
                 ok = ok and geom_ok(cand[0], p)
             obs = {"geom_ok": bool(ok)}
-            if "rw_options" in mol.nodes[node]:
-                rids.append(rw["id"] if rw else -2)
+            for opt in mol.nodes[node].get("rw_options", []):
+                # the entry is identified by molecule name and angle (the angles of the entries of one build file differ)
+                mine = [x for x in rws if x["mname"] == mol.mol_name and abs(float(opt[1]) - x["angle"]) < 1e-9 and x["id"] not in rids]
+                if not mine:
+                    rids.append(-2)
+                    continue
+                rids.append(mine[0]["id"])
                 if ev["ev"] == "ok":
                     q = np.asarray(eng.positions[eng.nodes_to_gndx[(mi, ev["prev"] - 1)]], float)
                     v = p - q
-                    nrm = np.asarray(rw["normal"])
+                    nrm = np.asarray(mine[0]["normal"])
                     sgn = np.sign(np.dot(nrm, v))
                     ang = np.degrees(np.arccos(np.clip(np.dot(nrm, v) / (np.linalg.norm(v) * np.linalg.norm(nrm)), -1, 1)))
-                    obs["dir_ok"] = bool(sgn == np.sign(rw["angle"]) and ang <= abs(rw["angle"]) + 1e-6)
+                    obs["dir_ok"] = obs.get("dir_ok", True) and bool(sgn == np.sign(mine[0]["angle"]) and ang <= abs(mine[0]["angle"]) + 1e-6)
+            if ev["ev"] == "ok" and mol.nodes[node].get("distance_restraints"):
+                # every distance window the residue carries (the numbers are bound to the specification by the window cases) is judged by the
+                # monitor's own minimum image, per axis with that axis' edge - any box shape
+                boxv_ = np.asarray(eng.boxsize, float)
+                wins = []
+                for rnode, up, lo in mol.nodes[node]["distance_restraints"]:
+                    q = np.asarray(eng.positions[eng.nodes_to_gndx[(mi, rnode)]], float)
+                    if not np.all(np.isfinite(q)):
+                        continue
+                    dv = p - q
+                    dv -= boxv_ * np.round(dv / boxv_)
+                    dd = float(np.linalg.norm(dv))
+                    wins.append([int(rnode), float(lo), float(up), dd])
+                if wins:
+                    obs["win_ok"] = all(lo - 1e-6 <= dd <= up + 1e-6 for _, lo, up, dd in wins)
+                    ev["raw"] = {"windows": wins}
             ev["rids"], ev["obs"] = sorted(rids), obs
         elif ev["ev"] == "finish":
             eng, topo = rec.engine, rec.topology
@@ -438,7 +606,7 @@ def _e2e(arg):
     try:
         with tempfile.TemporaryDirectory(prefix="verif_c07_", dir="/var/tmp") as wd:
             wd = Path(wd)
-            (wd / "m.top").write_text(mix_top(nch, npl, nrg, ring))
+            (wd / "m.top").write_text(mix_top(nch, npl, nrg, ring, chlen))
             (wd / "m.bld").write_text("\n".join(text) + "\n")
             # a forced failure schedule: random failures, plus one failure aimed at the residue nrewind-1 steps after the reference
             # residue of the distance restraint, so that the rewind regrows the reference residue after restrained residues were tried
@@ -461,15 +629,15 @@ def _e2e(arg):
             with w.recording(monitor=monitor, chooser=chooser) as rec:
                 holder["rec"] = rec
                 try:
-                    gen_coords(toppath=wd / "m.top", outpath=wd / "o.gro", name="m", box=np.array([box] * 3), build=[wd / "m.bld"], cycles=["RG", "RH"], cycle_tol=cyc_tol,
+                    gen_coords(toppath=wd / "m.top", outpath=wd / "o.gro", name="m", box=np.array(boxv), build=[wd / "m.bld"], cycles=["RG", "RH"], cycle_tol=cyc_tol,
                                max_force=5e4, grid_spacing=0.4, nrewind=nrew)
                 except _Timeout:
                     return {"noverdict": "timeout", "samples": samples, "text": "\n".join(text)}
                 except Exception as exc:
                     return {"inst": rec.header, "evs": rec.events[-20:], "error_in_code": "%s: %s" % (type(exc).__name__, exc), "bld": "\n".join(text)}
             geo = [{"id": e["id"], "mname": e["mname"], "mlo": e["mlo"], "mhi": e["mhi"], "rn": e["rn"], "rlo": e["rlo"], "rhi": e["rhi"]} for e in ents]
-            if rw:
-                geo.append({"id": rw["id"], "mname": rw["mname"], "mlo": rw["mlo"], "mhi": rw["mhi"], "rn": rw["rn"], "rlo": rw["rlo"], "rhi": rw["rhi"]})
+            for x in rws:
+                geo.append({"id": x["id"], "mname": x["mname"], "mlo": x["mlo"], "mhi": x["mhi"], "rn": x["rn"], "rlo": x["rlo"], "rhi": x["rhi"]})
             return {"inst": rec.header, "evs": rec.events, "error_in_code": None, "bld": geo, "text": "\n".join(text), "samples": samples}
     except _Timeout:
         return {"noverdict": "timeout", "samples": samples, "text": "\n".join(text)}
@@ -508,14 +676,23 @@ def run(tier):
     ck = c.Check("C07", tier)
     sd = c.seed()
     ck.rule = ("S->I: distance-window cases (chain 3-7, every ref/target pair in both orders, d in {0, 0.47, 1.2}, tol in {0, 0.1}, step in {0.47, 0.40}) and rings 3-9; "
-               "I->S: real gen_coords runs on a 4-type mixture with random build files (geometry in/out with overlapping / adjacent / empty residue and molecule ranges, "
-               "growth direction, distance restraint in either node order, cyclic rings of size 3-12, persistence length); distinct = case / seed")
+               "resname + id-range directives (40 per case, as geometric restraint and as growth direction) on 4 residues listed in every order of their ids; windows applied "
+               "in boxes with unequal edges (4 boxes x 2 reference points x 4 windows x ~126 displacements); "
+               "I->S: real gen_coords runs on a 5-type mixture with random build files (geometry in/out with overlapping / adjacent / empty residue and molecule ranges, "
+               "growth direction, distance restraint in either node order, cyclic rings of size 3-12, persistence length, a comb whose residue ids do not ascend along the "
+               "node list, boxes with unequal edges and a restraint longer than half of the shortest edge); distinct = case / seed")
     ck.assumptions = ["geometric predicates, growth direction and final pair distances are evaluated by an independent numeric monitor from the build-file numbers (DESIGN 6)",
                       "rings are pure rings (the statement speaks of ring-shaped molecules); geometric restraints use raw coordinates as the code does"]
     ck.stage("TLC: Restraints model, sensitivity, export")
-    small, dev = c.tlc_many([("MC_Restraints", "Res_small.cfg", {"workers": 4}), ("MC_Restraints", "Res_dev_bfs.cfg", {"check": False, "workers": 1})])
-    ck.model_must_hold(small, "WindowLaws/RingLaw")
-    ck.model_must_refute(dev, "RingLaw", "cyclic growth tree is breadth-first (F11)")
+    devs = [("Res_dev_bfs.cfg", "RingLaw", "cyclic growth tree is breadth-first (F11)"),
+            ("Res_dev_sel_slice.cfg", "SelLaw", "residues of an id range taken as one stretch of the node list (bisection on the ids as listed)"),
+            ("Res_dev_sel_index.cfg", "SelLaw", "position in the node list taken for the residue id"),
+            ("Res_dev_img_noimage.cfg", "ApplyLaw", "window applied to the plain separation (no minimum image)"),
+            ("Res_dev_img_halfshortest.cfg", "ApplyLaw", "separation folded at half of the shortest box edge on every axis")]
+    small, *dev = c.tlc_many([("MC_Restraints", "Res_small.cfg", {"workers": 4})] + [("MC_Restraints", cfg, {"check": False, "workers": 1}) for cfg, _, _ in devs])
+    ck.model_must_hold(small, "WindowLaws/RingLaw/SelLaw/ApplyLaw")
+    for res, (_, law, what) in zip(dev, devs):
+        ck.model_must_refute(res, law, what)
     cases = small.cases()
     ck.require(len(cases) > 1000, "too few cases: %d" % len(cases))
     ck.stage("S->I: %d window / ring cases through the real parser and set_restraints" % len(cases))
@@ -528,19 +705,27 @@ def run(tier):
         if kind == "diff":
             ck.violation({"kind": "s2i", "case": cs}, what="%s case %s: %s" % (cs["kind"], cs["a"], msg))
     ck.sample({"window case": next(x for x in cases if x["kind"] == "window" and x["a"]["d"] > 0)})
-    for kind in ("window", "window2", "ring", "ring2"):
+    for kind in ("window", "window2", "ring", "ring2", "sel", "apply"):
         ck.require(ck.actions.get(kind), "no %s case was replayed" % kind)
+    probes = [pr for x in cases if x["kind"] == "apply" for pr in x["probes"]]
+    ck.actions["window probes accepted (boxes with unequal edges)"] = sum(1 for pr in probes if pr["acc"])
+    ck.actions["window probes rejected (boxes with unequal edges)"] = sum(1 for pr in probes if not pr["acc"])
+    ck.require(any(pr["acc"] for pr in probes) and any(not pr["acc"] for pr in probes), "window probes are all accepted or all rejected")
+    ck.actions["directives evaluated on residue lists in any id order"] = sum(len(x["dirs"]) for x in cases if x["kind"] == "sel")
+    ck.sample({"selection case": next(x for x in cases if x["kind"] == "sel" and x["a"]["order"] == [2, 4, 1, 3])})
     ck.stage("I->S: random build files through gen_coords")
     rings = [3, 5, 8, 12, 4, 6, 7, 3] if tier == "quick" else [3, 4, 5, 6, 7, 8, 9, 10, 11, 12] * 6
     args = [(sd * 1000 + i, r) for i, r in enumerate(rings)]
     args += [(sd * 1000 + 500 + i, r, True) for i, r in enumerate([5, 8, 4, 6] if tier == "quick" else [3, 4, 5, 6, 7, 8, 9, 10] * 3)]
+    # boxes with unequal edges, a distance restraint whose lower bound exceeds half of the shortest edge
+    args += [(sd * 1000 + 700 + i, r, "rect") for i, r in enumerate([4, 6, 5] if tier == "quick" else [3, 4, 5, 6, 7, 8] * 3)]
     outs = c.pmap(_e2e, args)
     traces, nov = [], 0
     for a_, out in zip(args, outs):
         s, r = a_[0], a_[1]
         why = (out.get("samples") or {}).get("own", {}).get("why")
         if why:     # judged at sampling time, whether or not the run went on to finish
-            ck.violation({"kind": "e2e", "seed": s, "ring": r, "small_box": len(a_) > 2, "sampling": out["samples"], "build_file": out.get("text")},
+            ck.violation({"kind": "e2e", "seed": s, "ring": r, "small_box": a_[2] if len(a_) > 2 else False, "sampling": out["samples"], "build_file": out.get("text")},
                          what="persistence-length sampling (seed %d): %s" % (s, "; ".join(why)[:500]))
         if "noverdict" in out:
             nov += 1
@@ -550,7 +735,9 @@ def run(tier):
             ck.violation({"kind": "e2e", "seed": s, "ring": r, "error": out["error_in_code"], "build_file": out.get("bld")},
                          what="gen_coords raised with a random build file (seed %d, ring %d): %s" % (s, r, out["error_in_code"]))
             continue
-        traces.append({"inst": out["inst"], "evs": out["evs"], "bld": out["bld"], "seed": s, "ring": r, "text": out["text"], "small_box": len(a_) > 2})
+        traces.append({"inst": out["inst"], "evs": out["evs"], "bld": out["bld"], "seed": s, "ring": r, "text": out["text"], "small_box": a_[2] if len(a_) > 2 else False})
+        if len(a_) > 2 and a_[2] == "rect":
+            ck.actions["runs in a box with unequal edges"] = ck.actions.get("runs in a box with unequal edges", 0) + 1
         raw = out["evs"][-1].get("raw", {}).get("pairs", [])
         ck.actions["restrained pairs checked"] = ck.actions.get("restrained pairs checked", 0) + len(raw)
         for e in out["evs"]:
@@ -558,6 +745,10 @@ def run(tier):
                 ck.actions["restrained placement"] = ck.actions.get("restrained placement", 0) + 1
             if e.get("obs") and "dir_ok" in e["obs"]:
                 ck.actions["direction-restricted placement"] = ck.actions.get("direction-restricted placement", 0) + 1
+            if e.get("obs") and "win_ok" in e["obs"]:
+                ck.actions["placement inside distance windows (own minimum image)"] = ck.actions.get("placement inside distance windows (own minimum image)", 0) + 1
+            if e.get("rids") and out["inst"]["mname"][e["mol"] - 1] == "CB":
+                ck.actions["restrained placement, residue ids not ascending"] = ck.actions.get("restrained placement, residue ids not ascending", 0) + 1
     ck.extra["no_verdict_runs"] = nov
     # random build files are not always satisfiable within the time limit (no verdict); a handful of completed runs is required
     ck.require(len(traces) >= 3, "too many runs without verdict (%d of %d)" % (nov, len(args)))
@@ -566,6 +757,12 @@ def run(tier):
         ck.sample({"build file": traces[0]["text"], "restrained placement": next((e for e in traces[0]["evs"] if e.get("rids")), None),
                    "finish": traces[0]["evs"][-1].get("raw")})
         ck.require(ck.actions.get("restrained placement"), "no placement carried a geometric restraint (vacuous)")
+        # these two scenarios are also decided deterministically by the exported `sel` / `apply` cases above; a recorded run that does not come
+        # to an end within its CPU limit is "no verdict", not a failure of the machinery
+        for key, msg in (("restrained placement, residue ids not ascending", "no restrained placement in the molecule whose residue ids do not ascend"),
+                         ("runs in a box with unequal edges", "no run in a box with unequal edges came to an end")):
+            if not ck.actions.get(key):
+                ck.note("coverage note (recorded runs): " + msg)
         demo = json.loads(json.dumps(traces[:1]))
         k = next((i for i, e in enumerate(demo[0]["evs"]) if e.get("rids")), None)
         if k is not None:
